@@ -318,6 +318,32 @@ func (s *Server) DropParked() {
 	s.mu.Unlock()
 }
 
+// ExecParkedThenKill: the server processes everything it has received (parked requests, ascending
+// connection id), then every connection dies before a single reply has left: the requests took
+// effect, their replies are lost. The server stays up.
+func (s *Server) ExecParkedThenKill() {
+	s.mu.Lock()
+	defer s.mu.Unlock()
+	hold := s.plan.Hold
+	s.plan.Hold = true
+	ids := make([]int, 0, len(s.conns))
+	for id := range s.conns {
+		ids = append(ids, id)
+	}
+	sort.Ints(ids)
+	for _, id := range ids {
+		cs := s.conns[id]
+		for len(cs.parked) > 0 && !s.crashed {
+			argv := cs.parked[0]
+			cs.parked = cs.parked[1:]
+			s.process(cs, argv)
+		}
+		cs.held = nil
+	}
+	s.plan.Hold = hold
+	s.killConnsLocked()
+}
+
 // KillConns drops all current connections without marking the server crashed.
 func (s *Server) KillConns() {
 	s.mu.Lock()
